@@ -22,6 +22,9 @@ type Options struct {
 	// Exact reserves exactly the number of hex digits the signature needs (no '0' padding) even where the
 	// validator tolerates padding. adbe.x509.rsa_sha1 is always exact.
 	Exact bool
+	// TypeDocTimeStamp writes /Type /DocTimeStamp into the (first) signature dictionary whatever its SubFilter:
+	// a dictionary whose /Type and /SubFilter disagree (an attacker chooses both).
+	TypeDocTimeStamp bool
 }
 
 // SigInfo locates one signature inside Doc.Bytes. All offsets are absolute file offsets.
@@ -121,14 +124,14 @@ func pdfDate(t time.Time) string { return t.UTC().Format("D:20060102150405") + "
 
 // sigDictBody renders a signature dictionary with placeholders and returns the offsets (relative to the body)
 // of the ByteRange array and of the Contents hex string.
-func sigDictBody(subFilter string, hexDigits int, contentsLast bool, when time.Time) (body string, brAt, contAt int, err error) {
+func sigDictBody(subFilter string, hexDigits int, contentsLast bool, when time.Time, asTimestamp bool) (body string, brAt, contAt int, err error) {
 	m, err := keys()
 	if err != nil {
 		return "", 0, 0, err
 	}
 	var sb strings.Builder
 	typ := "Sig"
-	if subFilter == RFC3161 {
+	if subFilter == RFC3161 || asTimestamp {
 		typ = "DocTimeStamp"
 	}
 	fmt.Fprintf(&sb, "<< /Type /%s /Filter /Adobe.PPKLite /SubFilter /%s", typ, subFilter)
@@ -246,7 +249,7 @@ func Build(o Options) (*Doc, error) {
 	w.stream(objCont2, pageContent("sigdoc page two"), "sigdoc page two")
 	w.obj(objFont, "<< /Type /Font /Subtype /Type1 /BaseFont /Helvetica /Encoding /WinAnsiEncoding >>")
 	w.obj(objField1, fieldBody("Signature1", objPage1, objSig1))
-	body, brAt, contAt, err := sigDictBody(o.SubFilter, reserved, o.ContentsLast, when)
+	body, brAt, contAt, err := sigDictBody(o.SubFilter, reserved, o.ContentsLast, when, o.TypeDocTimeStamp)
 	if err != nil {
 		return nil, err
 	}
@@ -284,7 +287,7 @@ func Build(o Options) (*Doc, error) {
 	w2.obj(objPage1, page1Body([]int{objCont1, objCont1b, objCont1c}, []int{objField1, objField2}))
 	m2 := w2.stream(objCont1b, "% filler stream before signature two\n0 1 0 RG\n", "filler stream before signature two")
 	w2.obj(objField2, fieldBody("Signature2", objPage1, objSig2))
-	body2, brAt2, contAt2, err := sigDictBody(o.Second, reserved2, o.ContentsLast, when)
+	body2, brAt2, contAt2, err := sigDictBody(o.Second, reserved2, o.ContentsLast, when, false)
 	if err != nil {
 		return nil, err
 	}
